@@ -84,7 +84,11 @@ SPEC = {
         "the body of a d.Mutex critical section (no blocking call inside) is one step after the acquisition step",
         "DAGMutex, abstract model (Hive/Model/SyncMutexDag.lean, used by the driver for the arrival-order tie and by C17_dag_*): "
         "per-entity abstract reader/writer locks, unregister+unlock as one step",
-        "Counter subscribers and Stack element values are not modelled (only the value / size)",
+        "Counter/Stack data layer (Hive/Model/SyncMutexWaitV.lean, the model the driver runs): Wait.step with stack contents (FIFO, ids = push "
+        "sequence numbers), popped elements and Set/Update return values per goroutine, subscriber notifications (old,new) attached",
+        "state after a misuse panic: StarvingMutex frozen (internal mutex stays locked); DAGMutex composed model with the partial "
+        "unregistration of RUnlock and the unregistration before a wrong-mode panic, as in the code (known finding)",
+        "regenerated normalised statements of 36 anchored functions pinned by C17_stmts_* (Hive/Props/SyncMutexCode.lean)",
         "liveness is stated as invariants (every eligible waiter has a pending notifier) and absence of deadlock, not as fairness-based eventuality",
     ],
     "manifest": {
@@ -98,7 +102,11 @@ SPEC = {
                 "on the real objects with quiescence observed through the sync.Cond notify lists, every observation checked by the "
                 "compiled Lean models (set of admissible quiescent outcomes over all interleavings); stress with in-critical-section "
                 "overlap detectors and traces checked by the Lean exclusion / wait predicates; sequential panic matrix; regenerated "
-                "synchronisation skeletons as proof obligations.",
+                "synchronisation skeletons and normalised statements (guards, assignments, panics, constructor wiring) as proof obligations. "
+                "Data layer: stack FIFO/conservation, notification chain, return values (C17_stack_fifo_conservation, "
+                "C17_counter_notifications_chain, C17_counter_stack_return_values) over a refinement of the wait monitor "
+                "(C17_waitv_refines_wait), observed per arrival. After a recovered misuse panic the state is observed and probed "
+                "(C17_panic_freezes_lock_state; DAGMutex registry corruption = known finding with Lean witness).",
         "note": "Trusted: Lean kernel; the hand-written models and Go's sync semantics as modelled; the executable DAG oracle of the tie is the abstract-lock model (the composed model is used for the theorems); liveness as invariants + deadlock freedom, no fairness.",
         "technique": "Lean 4 inductive invariants over interleaving protocol models (counting invariants, obligation-holder invariants) "
                      "+ conformance of recorded arrival-order observations and stress traces + regenerated skeleton obligations",
